@@ -104,6 +104,10 @@ func (p c17) command(c *core.Ctx, name string, id int) (*hast.Stmt, bool) {
 	r := c.R
 	st := &hast.Stmt{K: hast.SCommand, Name: name, ID: id}
 	nargs := r.PickW(10, 25, 30, 20, 10, 5)
+	if r.Chance(1, 30) {
+		nargs = r.Range(12, 60) // more arguments than any fixed-size buffer
+		c.Feature("many-arguments")
+	}
 	types := map[hast.Ty]bool{}
 	hostile := false
 	for i := 0; i < nargs; i++ {
